@@ -290,11 +290,13 @@ def main(chk):
     chk.cov["rule"] = ("fault injection: %d construct templates (+%d used only with a raise: forms whose value the marker oracle cannot print) (operands, elements, `*` unpacking, pair keys/values, range bounds, "
                        "positional/keyword/unpacked arguments, receiver, chain argument, condition/branches, &&/||, embedded-string parts, "
                        "statements, assignment, slice bounds, literal/variable call receivers) x every evaluation position x 5 wrappers "
-                       "(plain, try/Either, thoughtful chain, inside a function, nested functions) x 4 raise kinds (raise Err, 1/0, unknown name, "
-                       "missing property); element k of 4 for 12 chain forms over arr/range/int/iterator/map receivers; seeded random "
+                       "(plain, try/Either, thoughtful chain, inside a function, nested functions) x %d raise kinds (raise Err, 1/0, unknown name, "
+                       "missing property, raise StopIterErr, next on an exhausted iterator); element k of 4 for %d chain forms over arr/range/int/str/"
+                       "iterator/map receivers in literal, variable and property form (each also with the two StopIterErr kinds); a raise inside a "
+                       "predicate handed to 8 library methods; duplicated keywords / keys; prefix operators in argument position; seeded random "
                        "nestings to depth 3. Every hole prints a marker; expected: markers up to the raise, nothing after, same kind and "
                        "message at the handler or at top level. All cases are non-trivial (a raise is always reached); distinct by text."
-                       % (len(TEMPLATES), len(TEMPLATES_FAILONLY)))
+                       % (len(TEMPLATES), len(TEMPLATES_FAILONLY), len(BOOMS), len(CHAIN_FORMS)))
     for i in (0, len(progs) // 2, len(progs) - 1):
         chk.sample({"prelude": PRELUDE, "program": progs[i], "expected": cases[i][1],
                     "impl": {k: res[i]["impl"].get(k) for k in ("kind", "errk", "errmsg", "out")}, "model_verdict": res[i]["verdict"]})
